@@ -129,7 +129,7 @@ QueryVal = OneOf(Int, Str, Const({}), Bool, NoneT)
 CaseObj = Obj("schemathesis.generation.case:Case", media_type=NoneT, body=Global("schemathesis.core:NOT_SET"), _auth=NoneT, method=Str,
               query=OneOf(NoneT, DictOf(optional={"a": QueryVal, "b": QueryVal})), cookies=OneOf(NoneT, KeyedDict(Str, Str, sizes=(0, 1))))
 R.extern["schemathesis.core.transforms.deepclone"] = None
-R.contract("schemathesis.core.transforms:deepclone", args={"value": Opq("Any")}, returns=lambda it, env: it.B._deepcopy(env["value"], {}), trusted=True, note="deep copy")
+R.contract("schemathesis.core.transforms:deepclone", args={"value": Opq("Any")}, returns=lambda it, env: it.B._deepcopy(env["value"], {}), trusted=True, note="deep copy", replay_real=True)
 R.contract(
     TR + "RequestsTransport.serialize_case",
     prop="C06",
@@ -161,7 +161,19 @@ def _n_wire_of(value):
     raise NotImplementedError
 
 
-NATIVE = {"helpers": {}}
+def _n_url(case, base_url):
+    return f"{base_url}/<path of {case.method}>"
+
+
+def _n_same(a, b):
+    if a is None or b is None or isinstance(a, bool) or isinstance(b, bool):
+        return a is b
+    return a == b
+
+
+# native replay: prepare_url (trusted, pure) is replaced by an injective stand-in because the model's Case has no operation graph; requests is imported by serialize_case only for typing
+NATIVE = {"helpers": {"url_of": _n_url, "is_empty_dict": lambda v: isinstance(v, dict) and len(v) == 0, "same": _n_same},
+          "patch": {"schemathesis.transport.prepare:prepare_url": _n_url, "schemathesis.transport.requests:prepare_url": _n_url}}
 
 LEVEL_TEXT = ("Deductive: each style encoder against the wire form of the OpenAPI serialization table, serialize_case's query/cookie/method/url pass-through; "
               "arrays/objects explored up to a small size (labelled bounded). URL composition and the requests library are trusted. Level other.")
